@@ -10,8 +10,8 @@ category Cf are parameters (`UnicodeDB`); every theorem that needs them assumes 
 discharges for the tables dumped from the running interpreter.
 
 The last section is the inventory: a proof over the table of `safestr` / `safe_format` sites that the translator
-extracts from /repo on every run.  One site is file-derived on the pinned tree (known finding), hence the
-`…_refuted` / `…_partial` pair instead of the full statement.
+extracts from /repo on every run.  One site was file-derived on the pinned tree (`safestr(key)`, msgformat/python.py); it was
+repaired by `fix:` d06c053 and the full statement `safestr_sites_tool_text` is a theorem.
 -/
 namespace I18n.Props.C02
 open I18n I18n.Tags I18n.Spec I18n.Spec.Tags
@@ -269,42 +269,20 @@ theorem message_repr_clean {db : UnicodeDB} (h : Sound db) (msgid : Str) (msgctx
 
 /-! ## The inventory of `safestr` / `safe_format` sites -/
 
-/-- the one site recorded in known_findings.json -/
-def knownFileDerived : List String :=
-  ["lib/check/msgformat/python.py:Checker.check_string:safestr(key)"]
+theorem sites_checked : Generated.SafestrSites.sites.all (fun s => s.provenance.toolText) = true := by decide +kernel
 
-def siteOk (s : Site) : Bool := s.provenance.toolText || knownFileDerived.contains s.key
-
-theorem sites_checked : Generated.SafestrSites.sites.all siteOk = true := by decide +kernel
-
-/-- **safestr_sites_tool_text_partial.**  Every place where lib/ marks text as exempt from escaping — every
+/-- **safestr_sites_tool_text.**  Every place where lib/ marks text as exempt from escaping — every
     `tags.safestr(X)`, every `safe_format` template, every other mention of those names — wraps tool-generated text
-    (literal, int, tool table, regex-guarded, library message, Unicode name, format of escaped pieces), with the
-    exception of the recorded site.  Proof over the table the translator extracts from /repo on every run; the
-    classifier's rules are trusted (tools/translate/tagsites2lean.py). -/
-theorem safestr_sites_tool_text_partial :
-    ∀ s ∈ Generated.SafestrSites.sites, s.key ∉ knownFileDerived →
-      s.provenance ≠ .fileDerived ∧ s.provenance ≠ .unknown := by
-  intro s hs hk
+    (literal, int, tool table, regex-guarded, library message, Unicode name, format of escaped pieces); none wraps
+    text of the checked file.  Proof over the table the translator extracts from /repo on every run; the
+    classifier's rules are trusted (tools/translate/tagsites2lean.py).
+    (On the pinned tree this was false: `tags.safestr(key)` in lib/check/msgformat/python.py wrapped the mapping
+    key of a python-format directive; repaired by `fix:` commit d06c053 in /repo.) -/
+theorem safestr_sites_tool_text :
+    ∀ s ∈ Generated.SafestrSites.sites, s.provenance ≠ .fileDerived ∧ s.provenance ≠ .unknown := by
+  intro s hs
   have h := List.all_eq_true.mp sites_checked s hs
-  have hk' : knownFileDerived.contains s.key = false := by simpa using hk
-  simp only [siteOk, hk', Bool.or_false] at h
   cases hp : s.provenance <;> simp [hp, Provenance.toolText] at h ⊢
-
-/-- **safestr_sites_tool_text_refuted.**  The full statement (`∀ site, provenance ≠ fileDerived ∧ ≠ unknown`) is
-    FALSE on the pinned tree: `tags.safestr(key)` in lib/check/msgformat/python.py wraps the mapping key of a
-    python-format directive, i.e. file content.  Witness replayed on the real code by the check.
-    (After a `fix:` commit this lemma stops compiling; delete it, empty `knownFileDerived`, and
-    `safestr_sites_tool_text_partial` is the full theorem.) -/
-theorem safestr_sites_tool_text_refuted :
-    ¬ ∀ s ∈ Generated.SafestrSites.sites, s.provenance ≠ .fileDerived ∧ s.provenance ≠ .unknown := by
-  intro h
-  have : Generated.SafestrSites.sites.all (fun s => s.provenance.toolText) = true := by
-    rw [List.all_eq_true]
-    intro s hs
-    have := h s hs
-    cases hp : s.provenance <;> simp [hp, Provenance.toolText] at this ⊢
-  exact absurd this (by decide +kernel)
 
 /-! ## Non-vacuity -/
 
@@ -330,7 +308,7 @@ example : (messageRepr liveDb (lit "a b") (some (lit "c")) (lit "{}:")).toOption
   decide +kernel
 example : (pyFormat (lit "f({}): {x}") [lit "1"] [(lit "x", lit "y")]).toOption = some (lit "f(1): y") := by decide +kernel
 example : (pyFormat (lit "f({}): {x} }") [lit "1"] [(lit "x", lit "y")]).toOption = none := by decide +kernel
--- the defect: a safestr extra is printed raw
+-- what the inventory theorem is about: a safestr extra is printed raw
 example : format liveDb demoTag (lit "x.po") [.safe [27, 91, 51, 49, 109]] none =
     lit "W: x.po: invalid-date " ++ [27, 91, 51, 49, 109] := by decide +kernel
 
